@@ -239,3 +239,6 @@ class NatSpec(object):
 
     def same_buffer(self, a, b):
         return isinstance(a, np.ndarray) and isinstance(b, np.ndarray) and np.shares_memory(a, b)
+
+    def writable(self, a):
+        return isinstance(a, np.ndarray) and bool(a.flags.writeable)
